@@ -378,6 +378,30 @@ def gen_mixed(rng, n_clients: int, max_ops: int, reply_kinds: List[str], send_fa
     return {"engine": "tcp", "config": cfg, "steps": uidify(steps)}
 
 
+def gen_c01_stall(rng) -> Dict[str, Any]:
+    """The device stops reading in the middle of a frame; sometimes the caller gives up and disconnects."""
+    cfg = base_config(rng)
+    devices, clients = make_clients(rng, 1)
+    cfg["devices"], cfg["clients"] = devices, clients
+    cl = clients[0]
+    steps: List[dict] = [{"kind": rng.choice(["connect", "aenter"]), "client": 0}]
+    for _ in range(rng.randrange(1, 4)):
+        kind = rng.choice([o for o in ops_for(cl) if o != "login"])
+        st = gen_op(rng, kind, cl)
+        st["client"] = 0
+        stall = round(rng.choice([0.05, 0.5, 2.0, rng.uniform(0.01, 5.0)]), 4)
+        which = rng.choice([0, 1, 1, 1])          # stall inside the login frame or the command frame
+        sends: List[Any] = [None] * which + [{"accept": rng.choice([1, 2, 39, 40, 41, 44, rng.randrange(1, 90)]), "stall": stall}]
+        st["sends"] = sends
+        if rng.random() < 0.6:
+            st["timeout"] = round(rng.choice([0.01, 0.3, stall / 2, stall * 2]), 4)
+        steps.append(st)
+        if st.get("timeout") and st["timeout"] < stall:
+            break       # the exchange is out of step after an abandoned operation: the user disconnects
+    steps.append({"kind": rng.choice(["disconnect", "aexit"]), "client": 0, "exc": rng.random() < 0.5})
+    return {"engine": "tcp", "config": cfg, "steps": uidify(steps)}
+
+
 def all_op_kinds() -> List[tuple]:
     """(devkind, op kind) for the 15 operation kinds of both API types."""
     out = [("heater", k) for k in T1_OPS]
